@@ -12,6 +12,12 @@ Decided (E11 small domains + E3 selectors, on ktensor.py):
           weights from the same prefix iff flagged and rebuild every factor with an F-order reshape
   ABSORB  absorbing weights into factor(s) resets the weights to one; normalising multiplies the weight by the norm it
           divides the column by
+  SCALE   Kruskal scale algebra (E8, pv/kscale.py): normalize, redistribute, tolist, unary minus and scalar multiple are
+          interpreted for one generic component with weight sigma*a (sigma = +-1, a > 0) over the terms
+          (weight, scale of every factor, scale of singled-out factors); on every path that returns,
+          weight * prod(factor scales) equals the original weight (its negation / multiple where documented), lists of
+          factors carry the whole weight, absorbed weights are exactly one and repaired weights are non-negative;
+          equality is decided by sympy normalisation for symbolic N and refuted only by an exact rational witness
 Cross-reference: score / symmetrize / tolist work on copies — C05.
 Not decided: unit norms, sorted weights, numerical invariance of full().
 """
@@ -128,6 +134,60 @@ def _name_is_count(loop: ast.For, name: str) -> bool:
     return isinstance(v, ast.Call) and (dotted(v.func) or "").split(".")[-1] in ("size", "len", "sum", "count_nonzero")
 
 
+def _single_def(fn: ast.AST, name: str) -> Optional[ast.expr]:
+    defs = [a for a in ast.walk(fn) if isinstance(a, ast.Assign) and len(a.targets) == 1 and isinstance(a.targets[0], ast.Name) and a.targets[0].id == name]
+    return defs[0].value if len(defs) == 1 else None
+
+
+def _is_selection(fn: ast.AST, name: str) -> bool:
+    """name = np.nonzero(..)[0] / np.where(..)[0] / np.flatnonzero(..): its length is a data-dependent count."""
+    v = _single_def(fn, name)
+    while isinstance(v, ast.Subscript):
+        v = v.value
+    return isinstance(v, ast.Call) and (dotted(v.func) or "").split(".")[-1] in ("nonzero", "where", "flatnonzero", "argwhere")
+
+
+def _never_exceeds(fn: ast.AST, bound: ast.expr, seq: ast.expr) -> Optional[bool]:
+    """Is `bound <= len(seq)` by construction?  True for 2*floor(len/2), 2*(len//2), len - len%2; False when it is
+    rounded up from the length (round / ceil); None otherwise."""
+    seq_t = ast.unparse(seq)
+    e = bound
+    if isinstance(e, ast.Name):
+        e = _single_def(fn, e.id)
+    if e is None:
+        return None
+
+    def is_len(x):
+        return isinstance(x, ast.Call) and (dotted(x.func) or "").split(".")[-1] in ("size", "len") and x.args and ast.unparse(x.args[0]) == seq_t \
+            or (isinstance(x, ast.Attribute) and x.attr == "size" and ast.unparse(x.value) == seq_t)
+
+    def strip(x):
+        while isinstance(x, ast.Call) and (dotted(x.func) or "").split(".")[-1] in ("int", "float") and x.args:
+            x = x.args[0]
+        return x
+
+    e = strip(e)
+    if isinstance(e, ast.BinOp) and isinstance(e.op, ast.Mult):
+        two, other = (e.left, e.right) if const(e.left) == 2 else ((e.right, e.left) if const(e.right) == 2 else (None, None))
+        if two is not None:
+            other = strip(other)
+            if isinstance(other, ast.BinOp) and isinstance(other.op, ast.FloorDiv) and const(other.right) == 2 and is_len(strip(other.left)):
+                return True
+            if isinstance(other, ast.Call) and other.args:
+                nm = (dotted(other.func) or "").split(".")[-1]
+                a = strip(other.args[0])
+                half = isinstance(a, ast.BinOp) and isinstance(a.op, ast.Div) and const(a.right) == 2 and is_len(strip(a.left))
+                if half and nm in ("floor", "trunc"):
+                    return True
+                if half and nm in ("round", "ceil", "rint", "around"):
+                    return False
+    if isinstance(e, ast.BinOp) and isinstance(e.op, ast.Sub) and is_len(strip(e.left)):
+        r = strip(e.right)
+        if isinstance(r, ast.BinOp) and isinstance(r.op, ast.Mod) and const(r.right) == 2 and is_len(strip(r.left)):
+            return True
+    return None
+
+
 def _is_flip(st: ast.stmt) -> bool:
     if isinstance(st, ast.Assign) and isinstance(st.targets[0], ast.Subscript) and "factor_matrices" in ast.unparse(st.targets[0]):
         v = st.value
@@ -209,6 +269,20 @@ def parity(prog: Program, res: Result) -> None:
                     it = st.iter
                     if isinstance(it, ast.Call) and isinstance(it.func, ast.Name) and it.func.id == "range" and len(it.args) == 1:
                         verdicts.setdefault(st.lineno, []).append((st, ast.unparse(it.args[0]), _parity(it.args[0], env)))
+                    elif isinstance(it, ast.Subscript) and isinstance(it.slice, ast.Slice) and it.slice.lower is None and it.slice.step is None \
+                            and it.slice.upper is not None:
+                        # `for n in X[:e]` runs min(e, len(X)) times: even only when e is even AND cannot exceed len(X)
+                        par = _parity(it.slice.upper, env)
+                        clip = _never_exceeds(fi.node, it.slice.upper, it.value)
+                        if par == "EVEN" and clip is True:
+                            v = "EVEN"
+                        elif clip is False:
+                            v = "CLIPPED"
+                        else:
+                            v = None
+                        verdicts.setdefault(st.lineno, []).append((st, ast.unparse(it), v))
+                    elif isinstance(it, ast.Name) and _is_selection(fi.node, it.id):
+                        verdicts.setdefault(st.lineno, []).append((st, ast.unparse(it), "DATA"))
                     else:
                         verdicts.setdefault(st.lineno, []).append((st, ast.unparse(it), None))
                 for x in ast.walk(st.target):
@@ -228,7 +302,11 @@ def parity(prog: Program, res: Result) -> None:
         elif "ODD" in pars:
             res.bad("PARITY", fi.short, desc, prog.loc(fi, st),
                     "on at least one path the flip count is ODD: an odd number of factors changes sign and the component (hence the tensor) is negated")
-        elif None in pars and _data_count(st):
+        elif "CLIPPED" in pars:
+            res.bad("PARITY", fi.short, desc, prog.loc(fi, st),
+                    f"the loop runs over `{cnt_txt}`: the slice stops at the length of the selection when the bound exceeds it, and the bound is "
+                    "rounded UP from that length (round/ceil): for some odd lengths all of the selected factors are flipped - an odd number")
+        elif "DATA" in pars or (None in pars and _data_count(st)):
             res.bad("PARITY", fi.short, desc, prog.loc(fi, st),
                     f"the flip count `{cnt_txt}` is a data-dependent count that nothing forces to be even (no 2*floor(./2), no mod-2 case split): "
                     "with an odd number of negative factors the component changes sign")
@@ -437,8 +515,106 @@ def absorb(prog: Program, res: Result) -> None:
 def check(prog: Program, res: Result, tier: str) -> None:
     res.explanation = __doc__.split("\n\n", 1)[1]
     res.assumptions = ["breakpt + 1 is the number of negatively correlated modes (index + 1)", "np.floor / int keep integer values integer"]
-    res.floors = {"PARITY": 3, "PS-k": 6, "EO-3": 4, "ABSORB": 3}
+    res.floors = {"PARITY": 3, "PS-k": 6, "EO-3": 4, "ABSORB": 3, "SCALE": 12}
     parity(prog, res)
     ps_k(prog, res)
     eo3(prog, res)
     absorb(prog, res)
+    scale(prog, res)
+
+
+# ------------------------------------------------------------------ SCALE (E8)
+def scale(prog: Program, res: Result) -> None:
+    from .. import kscale as KS
+    import sympy as sp
+    methods: Dict[str, ast.FunctionDef] = {}
+    fis = {}
+    for q, fi in prog.functions.items():
+        if fi.cls == "ktensor" and not fi.parent and fi.module == "pyttb.ktensor":
+            methods[fi.name] = fi.node
+            fis[fi.name] = fi
+    it = KS.Interp(methods)
+    plan = [("normalize", "same"), ("redistribute", "same"), ("tolist", "list"), ("__neg__", "neg"), ("__mul__", "mul")]
+    for name, kind in plan:
+        fi = prog.func(K + name)
+        per_path: Dict[tuple, List] = {}
+        for sigma in (1, -1):
+            w0 = sigma * KS.A_
+            st0 = KS.start(sigma)
+            if kind == "mul":
+                st0.binds["other"] = KS.C_
+            rets: List = []
+            ends = it.run_block(methods[name].body, [st0], rets)
+            for st in ends:
+                if st.unmodelled:
+                    rets.append((st, methods[name]))
+            for st, node in rets:
+                problems, und = [], None
+                target = {"same": w0, "list": w0, "neg": -w0, "mul": KS.C_ * w0}[kind]
+                if st.binds.get("<a=1>"):
+                    target = target.subs(KS.A_, 1)
+                states = [st]
+                val = node.value if isinstance(node, ast.Return) else None
+                list_result = False
+                if st.unmodelled:
+                    und = st.unmodelled
+                elif kind in ("neg", "mul"):
+                    # return ttb.ktensor(<factors>, <weights>)   |   delegation of a non-scalar operand (not this rule's business)
+                    if isinstance(val, ast.Call) and (dotted(val.func) or "").split(".")[-1] == "ktensor" and len(val.args) >= 2 and it._is_flist(val.args[0], st):
+                        try:
+                            st = st.clone()
+                            st.w = it.ev(val.args[1], st)
+                            states = [st]
+                        except KS.Unmodelled as u:
+                            und = str(u)
+                    elif kind == "mul" and any("isinstance(other, (ttb.sptensor, ttb.tensor))" in d and not d.startswith("not") for d in st.decisions):
+                        continue
+                    else:
+                        und = f"result `{ast.unparse(val)[:50] if val is not None else None}` not recognised"
+                elif kind == "list":
+                    if isinstance(val, ast.Attribute) and val.attr == "factor_matrices" and isinstance(val.value, ast.Call) \
+                            and isinstance(val.value.func, ast.Attribute) and val.value.func.attr in ("normalize", "redistribute"):
+                        try:
+                            states = it.call(val.value.func.attr, val.value, st)
+                        except KS.Unmodelled as u:
+                            und = str(u)
+                        list_result = True
+                    elif val is not None and (it._is_flist(val, st) or (isinstance(val, ast.ListComp) and it._is_flist(val.generators[0].iter, st))):
+                        list_result = True
+                    else:
+                        und = f"result `{ast.unparse(val)[:50] if val is not None else None}` not recognised"
+                for s2 in states:
+                    if und:
+                        break
+                    if s2.unmodelled:
+                        und = s2.unmodelled
+                        break
+                    total = s2.f_all ** KS.N_ * s2.extra if list_result else s2.total()
+                    eq, wit = KS.same(total, target)
+                    if eq is False:
+                        problems.append(f"weight {sigma:+d}*a: the component is scaled to {sp.simplify(total)} instead of {target} ({wit})")
+                    elif eq is None:
+                        und = f"could not normalise {sp.simplify(total)} against {target}"
+                    if kind == "same" and not problems:
+                        absorbed = any(d.startswith(("weight_factor == 'all'", "weight_factor is not None")) for d in s2.decisions) or name == "redistribute"
+                        if absorbed and KS.same(s2.w, sp.Integer(1))[0] is not True:
+                            problems.append(f"weights were absorbed into the factors but are left at {sp.simplify(s2.w)} instead of 1")
+                        if name == "normalize" and "not (mode is not None)" in s2.decisions and s2.w.is_nonnegative is not True:
+                            problems.append(f"weight {sigma:+d}*a ends as {sp.simplify(s2.w)}: not repaired to a non-negative weight")
+                    if list_result and kind == "list" and not problems and val is not None and isinstance(val, ast.Attribute):
+                        if KS.same(s2.w, sp.Integer(1))[0] is not True:
+                            problems.append(f"the factor list drops a weight of {sp.simplify(s2.w)} (the delegate did not absorb the weights)")
+                per_path.setdefault(st.decisions, []).append((problems, und, node))
+        for dec, outcomes in sorted(per_path.items()):
+            what = {"same": "keeps weight x factor scales of every component", "list": "returns factors that carry the whole weight",
+                    "neg": "negates every component exactly once", "mul": "scales every component by the scalar exactly once"}[kind]
+            desc = f"{name} {what} [{'; '.join(dec) if dec else 'only path'}]"
+            node = outcomes[0][2]
+            probs = [p for o in outcomes for p in o[0]]
+            unds = [o[1] for o in outcomes if o[1]]
+            if probs:
+                res.bad("SCALE", fi.short, desc, prog.loc(fi, node), "; ".join(probs[:2]))
+            elif unds:
+                res.undecided("SCALE", fi.short, desc, prog.loc(fi, node), unds[0])
+            else:
+                res.ok("SCALE", fi.short, desc, prog.loc(fi, node), f"{len(outcomes)} sign case(s)")
